@@ -7,3 +7,4 @@ import MtailVerif.Props.C26
 #print axioms MtailVerif.C26.broken_keeps_previous
 #print axioms MtailVerif.C26.unloaded_has_no_handle
 #print axioms MtailVerif.C26.loader_skeletons
+#print axioms MtailVerif.C26.f_runtime_runtime_skeletons
